@@ -409,7 +409,63 @@ func augDecode(c *Ctx, a *flAgg, fn *ssa.Function, p *Path, kind string, closure
 
 // augName: the augmentation of a frame is guarded by a predicate over both
 // the frame's function name and the name of the declaration found by line.
+// augDeclMatches: the name guard accepts a declaration only when its name
+// EQUALS a component of the frame's function name (prefix, substring or
+// case-insensitive matches would accept the enclosing-by-line declaration of
+// shifted sources whenever the names are related: run / runAll).
+func augDeclMatches(c *Ctx, a *flAgg) {
+	fn := c.MustFunc(a.obls, "AUG-name", "stack", "", "declMatches")
+	if fn == nil || len(fn.Params) != 2 {
+		return
+	}
+	exprHome = fn.Pkg.Pkg
+	x := &SPE{Fn: fn, MaxVisits: 3}
+	x.Explore()
+	frame, decl := fn.Params[0].Name(), fn.Params[1].Name()
+	nTrue, ok := 0, true
+	why := ""
+	for _, p := range x.Paths {
+		if p.Term != "return" || len(p.Results) != 1 {
+			continue
+		}
+		if v, isC := p.Results[0].boolConst(); !isC {
+			ok, why = false, "the result is not decided by comparisons on the path: "+p.Results[0].String()
+			continue
+		} else if !v {
+			continue
+		}
+		nTrue++
+		eq := false
+		for _, lt := range p.Lits {
+			at := lt.Atom
+			if !lt.Pol || at.Op != OpBin || at.Tok != token.EQL || len(at.Args) != 2 {
+				continue
+			}
+			l, r := at.Args[0], at.Args[1]
+			isDecl := func(e *Expr) bool { return e.Op == OpParam && e.Name == decl }
+			ofFrame := func(e *Expr) bool {
+				return e.mentions(func(y *Expr) bool { return y.Op == OpParam && y.Name == frame })
+			}
+			if (isDecl(l) && ofFrame(r)) || (isDecl(r) && ofFrame(l)) {
+				eq = true
+			}
+		}
+		if !eq {
+			ok, why = false, "a declaration is accepted on a path without an equality between its name and a part of the frame's function name ("+litsString(p)+")"
+		}
+	}
+	switch {
+	case !ok:
+		a.bad("AUG-name", "declMatches/equality", why+": with shifted sources a frame is decoded with the signature of a function whose name merely resembles its own", fn.Pos())
+	case nTrue == 0:
+		a.bad("AUG-name", "declMatches/equality", "declMatches never accepts", fn.Pos())
+	default:
+		a.ok("AUG-name", "declMatches/equality", "a declaration is accepted only when its name equals a dot-separated component of the frame's function name (type arguments cut off)", fn.Pos())
+	}
+}
+
 func augName(c *Ctx, a *flAgg) {
+	augDeclMatches(c, a)
 	fn := c.MustFunc(a.obls, "AUG-name", "stack", "cacheAST", "augmentGoroutine")
 	if fn == nil {
 		return
